@@ -10,9 +10,12 @@
    decoder of Model/Dec.v), not an induction over an encoding:
      (a) a run that ends in a value either was clean or ends with the stream position at the end of what
          has arrived (ReadAll moves it there);
-     (b) from the end of what has arrived, a run that ends in a value stays there: every read of at
-         least one octet fails, SeekBack 2 only follows a successful read of two octets, and the
-         seek-back of the ANY decoders goes to the marked position, which the entry point has just set.
+     (b) from the end of what has arrived, a run of the entry point that BEGINS an element never ends in a value (its
+         first read, of the end-of-octets look-ahead or of the identifier octet, fails), and the loops of the payload
+         decoders, which only begin elements, stay there.
+   The seek-back of the ANY decoders (to the marked start of the element) and the re-entry of the entry point past a
+   header (untagged CHOICE, which no longer sets the mark) only occur at the head of a value decoder, before any
+   element is begun: for them (a) alone is needed, and the ANY decoder proper is a clean tree.
    A consuming run followed by at least one more octet does not end at the end of the stream, so by (a) it
    was clean; and a clean run stays clean when octets are removed from the end of the stream. *)
 From Coq Require Import Lia.
@@ -193,6 +196,23 @@ Proof.
     exact (proj2 (Hk _ _) s a s' He H).
 Qed.
 
+Lemma PA_Inv1 {A} (p: proc A) : Inv1 p -> PA p.
+Proof. intros H. exact (proj1 H). Qed.
+
+Lemma PA_clean {A} (p: proc A) : clean p -> PA p.
+Proof. intros Hc s a s' _. left. apply clean_clean_run. exact Hc. Qed.
+
+Lemma PA_Tell {A} (k: nat -> proc A) : (forall q, PA (k q)) -> PA (Tell k).
+Proof. intros Hk s a s' H. exact (Hk (pos s) s a s' H). Qed.
+
+(* setting the mark in front of a tree that cannot yield a value at the end of the stream *)
+Lemma Inv1_Mark_stuck {A} (k: proc A) : PA k -> stuck k -> Inv1 (Mark k).
+Proof.
+  intros Ha Hs. split.
+  - intros s a s' H. exact (Ha _ a s' H).
+  - intros s a s' He H. cbn [resume] in H. exfalso. exact (Hs (setmark s (pos s)) a s' He H).
+Qed.
+
 (* ---------- the stream primitives ---------- *)
 Lemma Inv1_readN n : Inv1 (readN n).
 Proof. apply Inv1_ReadN. intros b. apply Inv1_Ret. Qed.
@@ -229,7 +249,9 @@ Section DecInv.
   Variable c : codec.
   Variable rec : spec -> tagset -> option (option N) -> bool -> bool -> proc dval.
   Variable lf : nat.
-  Hypothesis Hrec : forall sp ts r ae sf, Inv1 (rec sp ts r ae sf).
+  (* beginning an element: both invariants; re-entry past a header: (a) *)
+  Hypothesis Hrec : forall sp ts ae sf, Inv1 (rec sp ts None ae sf).
+  Hypothesis HrecS : forall sp ts len ae sf, PA (rec sp ts (Some len) ae sf).
 
   Lemma Inv1_read_len n : Inv1 (read_len lf n).
   Proof. unfold read_len. repeat inv_step. Qed.
@@ -308,15 +330,17 @@ Section DecInv.
   Lemma Inv1_dec_bits_indef sp ts sfun : Inv1 (dec_bits_indef rec lf sp ts sfun).
   Proof. unfold dec_bits_indef. destruct sfun; [apply Inv1_collector|apply Inv1_bits_indef_loop]. Qed.
 
-  (* ANY: the seek-back to the marked position *)
-  Lemma Inv2_dec_any sp ts len sfun : Inv2 (dec_any lf sp ts len sfun).
+  (* ANY: the seek-back to the marked position, then a read: a clean tree *)
+  Lemma clean_dec_any sp ts len sfun : clean (dec_any lf sp ts len sfun).
   Proof.
-    unfold dec_any. cbv zeta. apply Inv2_pbind.
-    - destruct (match sp with None => true | Some T => negb (tagset_eqb ts (tagset_of' T)) end).
-      + apply (Inv2_seek_mark (fun m p => Ret (len + N.of_nat (p - m))%N)). intros m p. apply Inv1_Ret.
-      + apply Inv1_to_2. apply Inv1_Ret.
-    - intros len'. inv1.
+    unfold dec_any. cbv zeta. apply clean_pbind.
+    - destruct (match sp with None => true | Some T => negb (tagset_eqb ts (tagset_of' T)) end); [|constructor].
+      constructor. intros m. constructor. intros p. constructor. constructor.
+    - intros len'. apply clean_pbind; [apply clean_read_len|]. intros b. destruct sfun; [constructor|apply clean_create].
   Qed.
+
+  Lemma PA_dec_any sp ts len sfun : PA (dec_any lf sp ts len sfun).
+  Proof. apply PA_clean. apply clean_dec_any. Qed.
 
   Lemma Inv1_any_indef_loop sp ts sfun tagged : forall n acc, Inv1 (any_indef_loop rec sp ts sfun tagged n acc).
   Proof.
@@ -324,13 +348,12 @@ Section DecInv.
     repeat first [ apply IH | apply Inv1_fragment | inv_step | apply Inv1_create ].
   Qed.
 
-  Lemma Inv2_dec_any_indef sp ts sfun : Inv2 (dec_any_indef rec lf sp ts sfun).
+  Lemma PA_dec_any_indef sp ts sfun : PA (dec_any_indef rec lf sp ts sfun).
   Proof.
-    unfold dec_any_indef. cbv zeta. apply Inv2_pbind.
-    - destruct (match sp with None => false | Some T => tagset_eqb ts (tagset_of' T) end).
-      + apply Inv1_to_2. apply Inv1_Ret.
-      + apply (Inv2_seek_mark (fun m p => readN (p - m))). intros m p. apply Inv1_readN.
-    - intros header. apply Inv1_any_indef_loop.
+    unfold dec_any_indef. cbv zeta. apply PA_pbind_clean.
+    - destruct (match sp with None => false | Some T => tagset_eqb ts (tagset_of' T) end); [constructor|].
+      constructor. intros m. constructor. intros p. constructor. apply clean_readN.
+    - intros header. exact (proj1 (Inv1_any_indef_loop sp ts sfun _ lf header)).
   Qed.
 
   (* the constructed types *)
@@ -366,18 +389,28 @@ Section DecInv.
   Lemma Inv1_choice_place T alts d : Inv1 (choice_place lf T alts d).
   Proof. unfold choice_place. inv1. Qed.
 
-  Lemma Inv1_choice_loop T alts ts tagged : forall n cur, Inv1 (choice_loop rec lf T alts ts tagged n cur).
+  (* tagged CHOICE in indefinite form: a loop of elements *)
+  Lemma Inv1_choice_loop_tagged T alts ts : forall n cur, Inv1 (choice_loop rec lf T alts ts true n cur).
   Proof.
     induction n as [|n IH]; intros cur; cbn [choice_loop]; cbv zeta; [apply Inv1_Raise|].
-    apply Inv1_pbind; [destruct tagged; apply Hrec|]. intros d.
+    apply Inv1_pbind; [apply Hrec|]. intros d.
     destruct d; repeat first [ apply IH | apply Inv1_choice_place | inv_step ].
   Qed.
 
-  Lemma Inv1_dec_choice T alts ts len : Inv1 (dec_choice rec lf T alts ts len).
+  (* untagged CHOICE: the entry point is re-entered past the header, once *)
+  Lemma PA_choice_loop T alts ts tagged n cur : PA (choice_loop rec lf T alts ts tagged n cur).
   Proof.
-    unfold dec_choice. cbv zeta. destruct len as [l|]; [|apply Inv1_choice_loop].
-    apply Inv1_pbind; [|intros d; apply Inv1_choice_place].
-    destruct (tagset_eqb (tagset_of' T) ts); apply Hrec.
+    destruct tagged; [exact (proj1 (Inv1_choice_loop_tagged T alts ts n cur))|].
+    destruct n as [|n]; cbn [choice_loop]; cbv zeta; [apply PA_Raise|].
+    apply PA_pbind; [apply HrecS|]. intros d.
+    destruct d; repeat first [ apply Inv1_choice_place | inv_step ].
+  Qed.
+
+  Lemma PA_dec_choice T alts ts len : PA (dec_choice rec lf T alts ts len).
+  Proof.
+    unfold dec_choice. cbv zeta. destruct len as [l|]; [|apply PA_choice_loop].
+    apply PA_pbind; [|intros d; apply Inv1_choice_place].
+    destruct (tagset_eqb (tagset_of' T) ts); [exact (proj1 (Hrec _ _ _ _))|apply HrecS].
   Qed.
 
   Lemma Inv1_raw_loop sp ts : forall n last, Inv1 (raw_loop rec sp ts n last).
@@ -392,15 +425,20 @@ Section DecInv.
     unfold dec_raw. destruct sfun; [apply Inv1_collector|]. destruct len; [apply Hrec|apply Inv1_raw_loop].
   Qed.
 
-  Lemma Inv2_dec_value cd fl sp ts len sfun : Inv2 (dec_value rec lf cd fl sp ts len sfun).
+  Lemma PA_dec_value cd fl sp ts len sfun : PA (dec_value rec lf cd fl sp ts len sfun).
   Proof.
     unfold dec_value. cbv zeta.
     destruct cd, len;
-      try (apply Inv2_dec_any); try (apply Inv2_dec_any_indef);
-      try (apply Inv1_to_2;
+      try (apply PA_dec_any); try (apply PA_dec_any_indef);
+      repeat match goal with
+             | |- PA (if ?b then _ else _) => destruct b
+             | |- PA (match ?x with _ => _ end) => destruct x
+             end;
+      try (apply PA_dec_choice);
+      try (apply PA_Inv1;
            repeat first [ apply Inv1_dec_integer | apply Inv1_dec_bool_cer | apply Inv1_dec_null | apply Inv1_dec_oid_v
                         | apply Inv1_dec_real_v | apply Inv1_dec_octets | apply Inv1_dec_octets_indef | apply Inv1_dec_bits
-                        | apply Inv1_dec_bits_indef | apply Inv1_collector | apply Inv1_dec_choice | apply Inv1_dec_schemaless
+                        | apply Inv1_dec_bits_indef | apply Inv1_collector | apply Inv1_dec_schemaless
                         | apply Inv1_dec_record | apply Inv1_dec_listof | inv_step ]).
   Qed.
 
@@ -411,73 +449,96 @@ Section DecInv.
   Lemma stuck_read_tag : stuck (read_tag lf).
   Proof. unfold read_tag. apply stuck_pbind. apply stuck_read1. Qed.
 
-  Lemma Inv2_run_value (len: option N) (k: proc dval) : Inv2 k ->
-    Inv2 (match len with
-          | None => k
-          | Some l => let! p0 := tell in let! v := k in let! p1 := tell in
-                      if N.eqb (N.of_nat (p1 - p0)) l then Ret v else Raise EMalformed
-          end).
+  Lemma PA_run_value (len: option N) (k: proc dval) : PA k ->
+    PA (match len with
+        | None => k
+        | Some l => let! p0 := tell in let! v := k in let! p1 := tell in
+                    if N.eqb (N.of_nat (p1 - p0)) l then Ret v else Raise EMalformed
+        end).
   Proof.
     intros Hk. destruct len as [l|]; [|exact Hk].
-    apply (Inv2_Tell (fun p0 => let! v := k in let! p1 := tell in if N.eqb (N.of_nat (p1 - p0)) l then Ret v else Raise EMalformed)).
-    intros p0. apply Inv2_pbind; [exact Hk|]. intros v. repeat inv_step.
+    apply (PA_Tell (fun p0 => let! v := k in let! p1 := tell in if N.eqb (N.of_nat (p1 - p0)) l then Ret v else Raise EMalformed)).
+    intros p0. apply PA_pbind; [exact Hk|]. intros v. repeat inv_step.
   Qed.
 
-  Lemma Inv2_Raise e : Inv2 (@Raise dval e).
-  Proof. apply Inv1_to_2. apply Inv1_Raise. Qed.
-
-  Lemma Inv2_dispatch sp ts len sfun : Inv2 (dispatch c rec lf sp ts len sfun).
+  Lemma PA_dispatch sp ts len sfun : PA (dispatch c rec lf sp ts len sfun).
   Proof.
     unfold dispatch. cbv zeta.
-    assert (Hfail: Inv2 (match (match ts with
-                                | t :: _ => if tcon t && negb (cls_eqb (tcls t) Univ) then Some (dec_raw rec lf sp ts len sfun) else None
-                                | [] => None end) with
-                         | Some k => match len with
-                                     | None => k
-                                     | Some l => let! p0 := tell in let! v := k in let! p1 := tell in
-                                                 if N.eqb (N.of_nat (p1 - p0)) l then Ret v else Raise EMalformed
-                                     end
-                         | None => Raise EMalformed end)).
-    { destruct ts as [|t r]; [apply Inv2_Raise|].
-      destruct (tcon t && negb (cls_eqb (tcls t) Univ))%bool; [|apply Inv2_Raise].
-      apply Inv2_run_value. apply Inv1_to_2. apply Inv1_dec_raw. }
+    assert (Hfail: PA (match (match ts with
+                              | t :: _ => if tcon t && negb (cls_eqb (tcls t) Univ) then Some (dec_raw rec lf sp ts len sfun) else None
+                              | [] => None end) with
+                       | Some k => match len with
+                                   | None => k
+                                   | Some l => let! p0 := tell in let! v := k in let! p1 := tell in
+                                               if N.eqb (N.of_nat (p1 - p0)) l then Ret v else Raise EMalformed
+                                   end
+                       | None => Raise EMalformed end)).
+    { destruct ts as [|t r]; [apply PA_Raise|].
+      destruct (tcon t && negb (cls_eqb (tcls t) Univ))%bool; [|apply PA_Raise].
+      apply PA_run_value. apply PA_Inv1. apply Inv1_dec_raw. }
     destruct sp as [|T|m].
-    - destruct (by_tag c ts) as [[cd fl]|]; [apply Inv2_run_value; apply Inv2_dec_value|].
-      destruct (by_tag c (firstn 1 ts)) as [[cd fl]|]; [apply Inv2_run_value; apply Inv2_dec_value|exact Hfail].
+    - destruct (by_tag c ts) as [[cd fl]|]; [apply PA_run_value; apply PA_dec_value|].
+      destruct (by_tag c (firstn 1 ts)) as [[cd fl]|]; [apply PA_run_value; apply PA_dec_value|exact Hfail].
     - destruct (tagset_eqb ts (tagset_of' T) || tm_contains (tagmap_of T) ts)%bool; [|exact Hfail].
-      destruct (tm_postponed (tagmap_of T)); [apply Inv2_Raise|].
-      destruct (by_type c T) as [[cd fl]|]; [apply Inv2_run_value; apply Inv2_dec_value|exact Hfail].
-    - destruct (tm_get m ts) as [chosen|e]; cbn [lift pbind]; [|apply Inv2_Raise].
+      destruct (tm_postponed (tagmap_of T)); [apply PA_Raise|].
+      destruct (by_type c T) as [[cd fl]|]; [apply PA_run_value; apply PA_dec_value|exact Hfail].
+    - destruct (tm_get m ts) as [chosen|e]; cbn [lift pbind]; [|apply PA_Raise].
       destruct chosen as [T|]; [|exact Hfail].
-      destruct (by_type c T) as [[cd fl]|]; [apply Inv2_run_value; apply Inv2_dec_value|exact Hfail].
+      destruct (by_type c T) as [[cd fl]|]; [apply PA_run_value; apply PA_dec_value|exact Hfail].
   Qed.
 
-  Lemma Inv1_dec_body sp acc rs ae sfun : Inv1 (dec_body c rec lf sp acc rs ae sfun).
+  (* the end-of-octets look-ahead in front of [main] *)
+  Lemma PA_eoo_block (main: proc dval) : PA main ->
+    forall b: bytes, PA (match b with [0%N; 0%N] => Ret DEoo | _ => SeekBack 2 main end).
+  Proof.
+    intros Hm b.
+    repeat match goal with |- PA (match ?x with _ => _ end) => destruct x end;
+      first [apply PA_Ret|apply PA_SeekBack; exact Hm].
+  Qed.
+
+  (* beginning an element *)
+  Lemma Inv1_dec_body_begin sp acc ae sfun : Inv1 (dec_body c rec lf sp acc None ae sfun).
   Proof.
     unfold dec_body. cbv zeta.
-    assert (Hmain: Inv1 (Mark (match rs with
-                               | Some len => dispatch c rec lf sp acc len sfun
-                               | None => let! t := read_tag lf in let! len := read_length c in dispatch c rec lf sp (t :: acc) len sfun
-                               end))).
-    { apply Inv1_Mark. destruct rs as [len|]; [apply Inv2_dispatch|]. split.
+    assert (Hmain: Inv1 (Mark (let! t := read_tag lf in let! len := read_length c in dispatch c rec lf sp (t :: acc) len sfun))).
+    { apply Inv1_Mark_stuck.
       - apply PA_pbind_clean; [apply clean_read_tag|]. intros t.
-        apply PA_pbind_clean; [apply clean_read_length|]. intros len. exact (proj1 (Inv2_dispatch sp (t :: acc) len sfun)).
-      - apply stuck_PB2. apply stuck_pbind. apply stuck_read_tag. }
+        apply PA_pbind_clean; [apply clean_read_length|]. intros len. apply PA_dispatch.
+      - apply stuck_pbind. apply stuck_read_tag. }
     destruct (ae && support_indef c)%bool; [|exact Hmain].
-    unfold readN. cbn [pbind]. apply Inv1_ReadN_pos; [discriminate|]. intros b.
-    repeat match goal with |- PA (match ?x with _ => _ end) => destruct x end;
-      first [apply PA_Ret|apply PA_SeekBack; exact (proj1 Hmain)].
+    unfold readN. cbn [pbind]. apply Inv1_ReadN_pos; [discriminate|]. apply PA_eoo_block. exact (proj1 Hmain).
+  Qed.
+
+  (* re-entry past the header *)
+  Lemma PA_dec_body_reenter sp acc len ae sfun : PA (dec_body c rec lf sp acc (Some len) ae sfun).
+  Proof.
+    unfold dec_body. cbv zeta.
+    destruct (ae && support_indef c)%bool; [|apply PA_dispatch].
+    unfold readN. cbn [pbind]. apply PA_ReadN. apply PA_eoo_block. apply PA_dispatch.
   Qed.
 End DecInv.
 
-(* the invariant holds of the entry point, whatever the codec, the fuel, the specification, the flags *)
-Theorem Inv1_dec_call c : forall f sp acc rs ae sfun, Inv1 (dec_call c f sp acc rs ae sfun).
+(* the invariants hold of the entry point, whatever the codec, the fuel, the specification, the flags *)
+Theorem Inv_dec_call c : forall f,
+  (forall sp acc ae sfun, Inv1 (dec_call c f sp acc None ae sfun))
+  /\ (forall sp acc len ae sfun, PA (dec_call c f sp acc (Some len) ae sfun)).
 Proof.
-  induction f as [|f IH]; intros sp acc rs ae sfun; cbn [dec_call]; [apply Inv1_Raise|].
-  apply Inv1_dec_body. exact IH.
+  induction f as [|f [IH1 IH2]]; cbn [dec_call].
+  - split; intros; [apply Inv1_Raise|apply PA_Raise].
+  - split; intros.
+    + apply Inv1_dec_body_begin; assumption.
+    + apply PA_dec_body_reenter; assumption.
 Qed.
 
-Print Assumptions Inv1_dec_call.
+Theorem Inv1_dec_call c f sp acc ae sfun : Inv1 (dec_call c f sp acc None ae sfun).
+Proof. exact (proj1 (Inv_dec_call c f) sp acc ae sfun). Qed.
+
+Theorem PA_dec_call c f sp acc rs ae sfun : PA (dec_call c f sp acc rs ae sfun).
+Proof.
+  destruct rs as [len|]; [exact (proj2 (Inv_dec_call c f) sp acc len ae sfun)|exact (proj1 (Inv1_dec_call c f sp acc ae sfun))].
+Qed.
+
+Print Assumptions Inv_dec_call.
 
 (* ====================================================================================== *)
 (* Part 2: consuming runs are clean runs                                                   *)
@@ -530,7 +591,7 @@ Theorem consumes_clean_dec_call c f sp acc rs ae sfun bs v : bs <> [] ->
   consumes (dec_call c f sp acc rs ae sfun) bs v -> consumes_clean (dec_call c f sp acc rs ae sfun) bs v.
 Proof.
   intros Hne Hc. apply consumes_clean_split. split; [exact Hc|].
-  exact (consumes_cleans _ bs v (proj1 (Inv1_dec_call c f sp acc rs ae sfun)) Hne Hc).
+  exact (consumes_cleans _ bs v (PA_dec_call c f sp acc rs ae sfun) Hne Hc).
 Qed.
 
 Corollary consumes_clean_dec_item c fuel sp bs v : (0 < length bs) ->
